@@ -477,6 +477,204 @@ def run_c41(run):
 
 
 # ----------------------------------------------------------------------------------------------
+# C30  concurrent skiplist inserts
+SK = os.path.join(vlib.SPEC, "Skiplist")
+SK_CONSTS = {"K": 3, "Heights <- HeightsDef\n  KeyOf <- KeysDistinct\n  MaxLevel": 2, "Readers": 0, "BugNoHelp": False, "BugPrevBeforeNext": False,
+             "Strict": False}
+
+
+def hooks_present():
+    return os.path.exists(os.path.join(vlib.REPO, "internal", "verifhook", "hook_on.go"))
+
+
+def run_c30(run):
+    quick = run.tier == "quick"
+    vlib.sany(SK, "Skiplist")
+    vlib.sany(SK, "SkiplistTrace")
+    bugs(run, "Skiplist", "Skiplist", [("Bug_NoHelp.cfg", ["FinalOK"]), ("Bug_PrevBeforeNext.cfg", ["FinalOK", "ReadersSeeOrderedSubset", "NoLoss", "ReaderView"])])
+    design(run, "Skiplist", "Skiplist", "Skiplist.cfg", "Skiplist(K=3 inserters, heights 2,1,2, distinct keys, 2 levels) exhaustive",
+           must_cover=["FindLevel", "NewNode", "ReadNP", "ReadPN", "Help", "CasNext", "CasPrev", "Refind"])
+    design(run, "Skiplist", "Skiplist", "SkiplistDup.cfg", "Skiplist(K=3, keys 1,2,1: duplicate) exhaustive")
+    if not quick:
+        design(run, "Skiplist", "Skiplist", "SkiplistReader.cfg", "Skiplist(K=3 + one reader walking level 0 forward then backward) exhaustive")
+        design(run, "Skiplist", "Skiplist", "Skiplist4.cfg", "Skiplist(K=4, heights 2,1,2,1, keys 2,1,3,2) exhaustive", timeout=1700, heap="10g")
+    binp = vlib.build_driver("internal/arenaskl", name="proto_arenaskl")
+    out = vlib.scratch("verif.sk.")
+    env = dict(VERIF_OUT=out, VERIF_SEED=str(run.seed), VERIF_ROUNDS=str(45 if quick else 900), VERIF_THREADS="6", VERIF_KEYS="120",
+               VERIF_READERS="2", VERIF_PROBE_LEN=str(4 if quick else 6))
+    st, _ = drive(binp, "TestVProtoSkiplist(Explore|InserterProbe)$", env)
+    # ---- concurrent exploration, judged by TLC
+    path = os.path.join(out, "skl_explore.ndjson")
+    v = _validate(SK, "SkiplistTrace", SK_CONSTS, path, heap="8g")
+    lines = open(path).read().splitlines()
+    is_start = lambda l: l.startswith('{"list"') or '"op":"adds"' in l
+    if not v.accepted:
+        ev = v.rejected_line
+        seg, s0 = _segment(path, v.hwm, is_start)
+        keep = os.path.join(run.outdir, "C30_rejected_round.ndjson")
+        open(keep, "w").write("\n".join(seg) + "\n")
+        short = {k: (x if not isinstance(x, list) or len(x) < 40 else x[:40] + ["..."]) for k, x in ev.items()} if isinstance(ev, dict) else ev
+        run.violation({"kind": "trace-rejected", "module": "SkiplistTrace", "op": ev.get("op") if isinstance(ev, dict) else None},
+                      "real concurrent execution rejected by SkiplistTrace at line %d (%s event of the round starting at line %d): %s"
+                      % (v.hwm + 1, ev.get("op") if isinstance(ev, dict) else "?", s0 + 1, json.dumps(short)[:500]),
+                      replay_obj={"trace_segment": keep, "cmd": "VERIF_SEED=%d python3 /verif/vcheck run C30 --tier %s" % (run.seed, run.tier)})
+    # ---- sequential Inserter probe (cached splice): every rejected sequence is reported by TLC
+    ppath = os.path.join(out, "skl_probe.ndjson")
+    pv = _validate(SK, "SkiplistTrace", SK_CONSTS, ppath)
+    if not pv.accepted:
+        raise vlib.Inconclusive("probe trace not consumed:\n" + pv.tlc.out[-2000:])
+    rej = re.findall(r'<<"PROBE-REJECT", (\d+), "(\w+)">>', pv.tlc.out)
+    plines = open(ppath).read().splitlines()
+    by_reason = {}
+    for pid, reason in rej:
+        by_reason.setdefault(reason, []).append(int(pid))
+    for reason, ids in sorted(by_reason.items()):
+        first = ids[0]
+        seg = plines[2 * first:2 * first + 2]
+        keep = os.path.join(run.outdir, "C30_probe_%s.ndjson" % reason)
+        open(keep, "w").write("\n".join(seg) + "\n")
+        run.violation({"kind": "inserter-dup-probe", "reason": reason},
+                      "sequential Adds through one Inserter: %d of %d sequences rejected by SkiplistTrace (reason %s: %s); first: %s"
+                      % (len(ids), len(plines) // 2, reason,
+                         "a repeated Add of a present key returned nil and the key is linked twice" if reason == "dupok" else "list malformed",
+                         seg[0][:300]), replay_obj={"trace_segment": keep})
+    run.cov["inserter_probe"] = dict(sequences=len(plines) // 2, rejected=len(rej))
+    # ---- evidence
+    rounds = scans = evals = 0
+    nontriv = set()
+    for l in lines:
+        if '"op":"scan"' in l:
+            scans += 1
+            evals += 1
+        elif '"op":"final"' in l:
+            evals += 1
+        elif '"op":"adds"' in l:
+            rounds += 1
+            e = json.loads(l)
+            evals += len(e["list"])
+            # non-trivial: adds of different threads overlapped in time (start ticket of one inside another's start..tick window)
+            a = sorted(e["list"], key=lambda x: x[3])
+            ov = sum(1 for i in range(len(a) - 1) if a[i][0] != a[i + 1][0] and a[i + 1][3] < a[i][4] + 1)
+            if ov >= 5:
+                nontriv.add(vlib.sha(l))
+    run.traces += rounds + len(plines) // 2
+    run.cov["evaluations"] = evals
+    run.cov["distinct_nontrivial"] = len(nontriv)
+    run.cov["rule"] = ("evaluation = one Add return code, one concurrent reader traversal, or one quiescent traversal set (Iterator forward/backward + "
+                       "every level's next/prev chain) asserted by TLC (SkiplistTrace, built from Skiplist.tla's own QuiescentOK/LevelOK/ReaderOK "
+                       "operators); a round is non-trivial when >= 5 Adds of different goroutines overlapped in time (start/completion tickets); "
+                       "distinct by content hash")
+    run.cov["driver"] = st
+    if not run.violations:
+        fi = [i for i, l in enumerate(lines) if '"op":"final"' in l][0]
+
+        def corrupt(ls):
+            e = json.loads(ls[fi]); b = e["bwd"]; b[3], b[4] = b[4], b[3]; ls[fi] = json.dumps(e); return ls, fi
+        head = lines[:fi + 1]
+        demo_reject(SK, "SkiplistTrace", SK_CONSTS, head, corrupt, "two neighbours of the backward traversal swapped")
+
+        def dup_ok(ls):
+            e = json.loads(ls[0]); x = [a for a in e["list"] if a[2] == 0][0]; x[2] = 1; ls[0] = json.dumps(e); return ls, fi
+        demo_reject(SK, "SkiplistTrace", SK_CONSTS, head, dup_ok, "an ErrRecordExists result turned into nil")
+        si = [i for i, l in enumerate(head) if '"op":"scan"' in l and '"asc":true' in l and len(json.loads(l)["seq"]) > 10][0]
+
+        def unsort(ls):
+            e = json.loads(ls[si]); q = e["seq"]; q[2], q[5] = q[5], q[2]; ls[si] = json.dumps(e); return ls, si
+        demo_reject(SK, "SkiplistTrace", SK_CONSTS, head, unsort, "a reader's traversal made unordered")
+        run.cov["binding_demo"] = "swapped backward neighbours, a flipped Add result and an unordered reader traversal were each rejected by TLC"
+    e0 = json.loads(lines[0])
+    run.sample({"round": e0["round"], "testing": e0["testing"], "first_adds[thread,key,res,start,done]": e0["list"][:12]})
+    # ---- mode C (forced schedules through internal/verifhook) when the hook package exists
+    try:
+        c30_forced(run, binp)
+    except vlib.Inconclusive as ex:
+        if "hooks missing" not in str(ex):
+            raise
+        run.cov["mode_C_forced_schedules"] = "not run: " + str(ex)
+        vlib.log("  C30 mode C not run: %s" % ex)
+    run.assumptions += [
+        "hook-free binding: interleavings are whatever the Go scheduler produces (6 inserters, 2 readers, the package's own testing yield "
+        "points on in every other round); the exhaustive argument is on the model only until the verifhook patch is in /repo",
+        "Inserter (cached splice) threads own their keys exclusively in the concurrent rounds; duplicate Adds through an Inserter are "
+        "covered by the sequential probe",
+        "forward reader traversals must contain every key whose Add returned before the traversal started; backward traversals are only "
+        "required to be ordered subsets (prev links may lag)",
+    ]
+
+
+def c30_forced(run, binp):
+    """mode C: TLC schedules forced through verifhook Points; exploration with random release order"""
+    if not hooks_present():
+        raise vlib.Inconclusive("hooks missing: %s/internal/verifhook does not exist (apply /verif/hooks/proto.patch)" % vlib.REPO)
+    if "verifhook.Point" not in open(os.path.join(vlib.REPO, "internal", "arenaskl", "skl.go")).read():
+        raise vlib.Inconclusive("hooks missing: internal/arenaskl/skl.go has no verifhook.Point calls (apply /verif/hooks/proto.patch)")
+    quick = run.tier == "quick"
+    rng = random.Random(run.seed)
+    hbin = vlib.build_driver("internal/arenaskl", name="proto_arenaskl_hooks", tags="verif,verifhooks")
+    res = {}
+    for cfgname, heights, keys, label in (("Skiplist.cfg", "2,1,2", "1,2,3", "distinct"), ("SkiplistDup.cfg", "2,1,2", "1,2,1", "dup")):
+        wd = vlib.scratch("verif.skg.")
+        dot = os.path.join(wd, "graph.dot")
+        r = vlib.tlc(SK, "Skiplist", cfgname, workers=W, timeout=1500, dump_dot=dot, workdir=wd, heap="8g")
+        if not r.ok:
+            raise vlib.Inconclusive("Skiplist graph dump failed: %s\n%s" % (r.violation, r.out[-1500:]))
+        init, succ, _ = load_graph(dot)
+        npaths, memo = count_paths(init, succ)
+        nedges = sum(len(v) for v in succ.values())
+        if quick:
+            paths = sample_paths(init, succ, memo, 1200 if label == "distinct" else 500, rng)
+            sel = "seeded uniform sample of maximal paths"
+        else:
+            paths = edge_cover(init, succ, rng)
+            ncover = len(paths)
+            have = set(tuple(p) for p in paths)
+            paths += [p for p in sample_paths(init, succ, memo, 15000, rng) if tuple(p) not in have]
+            sel = "greedy cover of every edge of the state graph (%d paths) + seeded uniform sample" % ncover
+        sf = os.path.join(wd, "schedules.jsonl")
+        with open(sf, "w") as o:
+            for p in paths:
+                o.write(json.dumps([parse_label(x) for x in p]) + "\n")
+        out = vlib.scratch("verif.skh.")
+        env = dict(VERIF_OUT=out, VERIF_SEED=str(run.seed), VERIF_SK_HEIGHTS=heights, VERIF_SK_KEYS=keys, VERIF_SK_LEVELS="2",
+                   VERIF_SCHEDULES=sf, VERIF_EXPLORE=str(1500 if quick else 30000))
+        st, _ = drive(hbin, "TestVProtoSkiplistHooks", env)
+        consts = dict(SK_CONSTS)
+        if label == "dup":
+            consts = {k.replace("KeysDistinct", "KeysDup"): v for k, v in consts.items()}
+        is_start = lambda l: '"op":"sstart"' in l
+        rf = two_stage(run, SK, "SkiplistTrace", consts, os.path.join(out, "sklhook_forced.ndjson"), ("final",), "C30-forced-" + label, is_start)
+        rx = two_stage(run, SK, "SkiplistTrace", consts, os.path.join(out, "sklhook_explore.ndjson"), ("final",), "C30-hookexplore-" + label, is_start)
+        if (rf["drift"] or rx["drift"]) and not (rf["violated"] or rx["violated"]):
+            out2 = vlib.scratch("verif.skh2.")
+            env2 = dict(env, VERIF_OUT=out2, VERIF_SCHEDULES="", VERIF_EXPLORE=str(8000 if quick else 80000), VERIF_SEED=str(run.seed + 104729))
+            st2, _ = drive(hbin, "TestVProtoSkiplistHooks", env2)
+            two_stage(run, SK, "SkiplistTrace", consts, os.path.join(out2, "sklhook_explore.ndjson"), ("final",), "C30-hookfallback-" + label, is_start)
+            st["fallback_explore_runs"] = st2["hook_explore_runs"]
+        run.traces += st["hook_forced"] + st["hook_explore_runs"]
+        run.cov["evaluations"] += sum(1 for pth in ("sklhook_forced.ndjson", "sklhook_explore.ndjson") for l in open(os.path.join(out, pth)) if '"op":"step"' in l)
+        run.cov["distinct_nontrivial"] += st["hook_forced"] + st["hook_explore_distinct_orders"]
+        res[label] = dict(graph_states=len(succ), graph_edges=nedges, maximal_paths=npaths, replayed=len(paths), selection=sel, driver=st,
+                          forced_strict_ok=rf["strict_ok"], explore_strict_ok=rx["strict_ok"])
+        if label == "distinct" and rf["strict_ok"] and not run.violations:
+            lines = open(os.path.join(out, "sklhook_forced.ndjson")).read().splitlines()
+            k = [i for i, l in enumerate(lines) if is_start(l)]
+            head = lines[:k[2]]
+            si = [i for i, l in enumerate(head) if '"site":"casNext"' in l][0]
+
+            def corrupt(ls):
+                e = json.loads(ls[si]); e["fw"][0] = e["fw"][0] + [9]; ls[si] = json.dumps(e); return ls, si
+            demo_reject(SK, "SkiplistTrace", dict(consts, Strict=True), head, corrupt, "forward chain after a casNext step altered (Strict)")
+
+            def drop(ls):
+                del ls[si]; return ls, si
+            demo_reject(SK, "SkiplistTrace", dict(consts, Strict=True), head, drop, "casNext step dropped (Strict)", exact=False)
+            run.cov["binding_demo"] += "; mode C: an altered chain after a forced step and a dropped step were rejected (Strict)"
+    run.cov["mode_C_forced_schedules"] = res
+    run.cov["rule"] += ("; mode C (verifhook): evaluation = one forced/explored atomic step whose parked site and resulting per-level chains were "
+                        "matched against Skiplist.tla by TLC; distinct = distinct schedules")
+
+
+# ----------------------------------------------------------------------------------------------
 NOTE = ("Trusted: TLC, the TLA+ module as the statement of the protocol, the Go driver's recording. Bounded as stated in the evidence "
         "(constants of the exhaustive configs; driver bounds).")
 
@@ -499,4 +697,14 @@ def REGISTER(reg):
         "DESIGN 6/C41", engine="proto")
 
 
-SPEC_MODULES = [("Marker", "Marker"), ("Marker", "MarkerTrace"), ("SharedObj", "SharedObj"), ("SharedObj", "SharedObjTrace")]
+    reg("C30", "Concurrent skiplist inserts", run_c30,
+        "Skiplist.tla (one action per atomic step of findSplice/addInternal, CAS next then prev with helping, list height) is checked "
+        "exhaustively for 3-4 inserters incl. duplicates and a reader; real goroutines (6 inserters with overlapping key sets, 2 readers) run "
+        "on the real skiplist and every return code, reader traversal and the quiescent per-level forward/backward chains are validated by TLC "
+        "against the spec's quiescent/ordered-subset operators; a sequential Inserter probe covers the cached splice. With internal/verifhook "
+        "present, TLC schedules are additionally forced step by step.", NOTE,
+        "TLA+ (Skiplist.tla) + TLC exhaustive + TLC validation of recorded real concurrent executions (+ forced schedules via verifhook when present)",
+        "DESIGN 6/C30", engine="proto")
+
+
+SPEC_MODULES = [("Skiplist", "Skiplist"), ("Skiplist", "SkiplistTrace"), ("Marker", "Marker"), ("Marker", "MarkerTrace"), ("SharedObj", "SharedObj"), ("SharedObj", "SharedObjTrace")]
